@@ -2,7 +2,7 @@
     source message it descends from and the output index taken at every stage so far (the
     harness carries both in the metadata of the real messages).  The handler of stage s
     returns [fan s lineage] outputs; output j of (l, p) is (l, p ++ [j]). *)
-From WM Require Import Base.Prelude Message.Model Handler.RouterHandle Pipeline.Model Pipeline.ImmModel.
+From WM Require Import Base.Prelude Message.Model Handler.RouterHandle Pipeline.Model Pipeline.ImmModel Pipeline.CtxModel.
 
 Definition cm := (N * list N)%type.
 Definition cm_eqb (a b : cm) : bool := N.eqb (fst a) (fst b) && list_eqb N.eqb (snd a) (snd b).
@@ -26,7 +26,8 @@ Record c01_case := C01 {
   q_srcs : list cm;                  (* source messages whose Publish returned nil *)
   q_log : list (delivery cm);        (* what the implementation did, in order of handler entry *)
   q_sink : list cm;                  (* arrivals at the final topic *)
-  q_quiet : bool                     (* the implementation became quiescent (nothing pending) *)
+  q_quiet : bool;                    (* the implementation became quiescent (nothing pending) *)
+  q_ctx : list (list bool)           (* per stage and call: the delivered copy's context was live at handler entry *)
 }.
 
 Definition hevent_eqb (a b : hevent cm) : bool :=
@@ -58,7 +59,7 @@ Fixpoint bag_eqb (a b : list cm) : bool :=
   end.
 
 Definition c01_model (c : c01_case) : option (pstate cm) :=
-  preplay_imm (chf (q_fans c)) cm_eqb rt_handle (q_k c) (sc_of (q_script c)) (pinit (q_srcs c))
+  preplay_imm (chf (q_fans c)) cm_eqb rt_handle (q_k c) (sc_ctx (cl_of (q_ctx c)) (sc_of (q_script c))) (pinit (q_srcs c))
           (map (fun d => (d_stage d, d_msg d)) (q_log c)).
 
 (** 0 = agrees; 1 = an observed delivery is not enabled in the model; 2 = the logs differ;
@@ -88,12 +89,17 @@ Definition c01_not_redelivered (c : c01_case) : bool :=
 (** the redelivery after a Nack was not immediate: another message reached the stage in between *)
 Definition c01_not_immediate (c : c01_case) : bool := negb (immediate_ok cm_eqb (q_log c)).
 
+(** a copy was delivered with a context that was already done (C04 / [C01_delivery_context_is_live]
+    say: never, for a subscription that is not closing) - for a context-aware stage that is a fault *)
+Definition c01_dead_ctx (c : c01_case) : bool := negb (all_live (q_ctx c)).
+
 Definition c01_mismatches (cs : list c01_case) : list (nat * nat) :=
   filter (fun p => negb (Nat.eqb (snd p) 0)) (combine (seq 0 (length cs)) (map c01_mismatch cs)).
 Definition c01_log_violations (cs : list c01_case) : list nat := positions (map c01_log_bad cs).
 Definition c01_invented_violations (cs : list c01_case) : list nat := positions (map c01_invented cs).
 Definition c01_lost_violations (cs : list c01_case) : list nat := positions (map c01_lost cs).
 Definition c01_immediate_violations (cs : list c01_case) : list nat := positions (map c01_not_immediate cs).
+Definition c01_dead_ctx_violations (cs : list c01_case) : list nat := positions (map c01_dead_ctx cs).
 Definition c01_redelivery_violations (cs : list c01_case) : list nat := positions (map c01_not_redelivered cs).
 (** first logged delivery the monitor rejects (for the report) *)
 Definition c01_first_bad (c : c01_case) : list nat :=
